@@ -29,7 +29,7 @@ run_one() {
     [ -z "$out" ] && echo "benign $name: silent" || echo "benign $name: FALSE-ALARM $out"
   else
     prop=$(python3 -c "import json;print(json.load(open('/verif/seeded/$name/meta.json'))['property'])")
-    if echo "$out" | grep -q "$prop\."; then echo "seeded $name ($prop): detected $out"; else echo "seeded $name ($prop): MISSED $out"; fi
+    if echo "$out" | grep -Eq "$prop[.:]"; then echo "seeded $name ($prop): detected $out"; else echo "seeded $name ($prop): MISSED $out"; fi
   fi
 }
 export -f run_one
